@@ -348,6 +348,46 @@ def signatures(src: str) -> dict:
     return out
 
 
+def probe_log(path) -> dict:
+    """The event log, MEASURED on the real class (E5 probe, fail closed): the module is evaluated, a lifecycle is
+    constructed, `_log_event` is called 2 x cap + 500 times and `get_statistics()['events_count']` is read after every
+    call.  Facts: entries after construction (`init`), growth of exactly one per call up to a capacity at which it stays
+    (`cap`), `_events.clear()` empties it.  Anything else -> cap 0 / init 0 (`c09_log_facts` then fails)."""
+    out = {"cap": 0, "init": 0}
+    try:
+        import importlib.util
+        import sys as _sys
+        name = f"_e5_telomere_probe_{abs(hash(str(path)))}"
+        spec = importlib.util.spec_from_file_location(name, str(path))
+        mod = importlib.util.module_from_spec(spec)
+        _sys.modules[name] = mod
+        try:
+            spec.loader.exec_module(mod)
+        finally:
+            _sys.modules.pop(name, None)
+        t = getattr(mod, CLASS)(max_operations=5, silent=True)
+        count = lambda: int(t.get_statistics()["events_count"])
+        n0 = count()
+        seq = []
+        for _ in range(2600):
+            t._log_event("probe")
+            seq.append(count())
+        cap = max(seq)
+        if cap >= 2600 + n0 or n0 < 0 or cap < 1:
+            return out                       # no capacity reached within the probe
+        if any(v != min(cap, n0 + i + 1) for i, v in enumerate(seq)):
+            return out
+        t._events.clear()
+        if count() != 0:
+            return out
+        t2 = getattr(mod, CLASS)(max_operations=5, silent=True)
+        if int(t2.get_statistics()["events_count"]) != n0:
+            return out
+        return {"cap": cap, "init": n0}
+    except BaseException:   # noqa - fail closed
+        return {"cap": 0, "init": 0}
+
+
 # --------------------------------------------------------------------------------------------------------
 def render_locks(sh: Shape) -> str:
     order = sh.ordered() if sh.methods else []
@@ -374,7 +414,7 @@ def render_locks(sh: Shape) -> str:
         + ",\n".join(rows) + "\n]\n\nend Operon.Gen.TelomereLocks\n")
 
 
-def render_consts(ok: bool, vals: dict, sig: dict = None) -> str:
+def render_consts(ok: bool, vals: dict, sig: dict = None, log: dict = None) -> str:
     def nd(c):
         v = vals.get(c)
         return (v.numerator, v.denominator) if v is not None else (0, 0)
@@ -396,6 +436,10 @@ def render_consts(ok: bool, vals: dict, sig: dict = None) -> str:
           "def paramNames : List (String × List String) := ["
           + ("" if nm is None else ", ".join('("%s", [%s])' % (m, ", ".join(f'"{p}"' for p in ps)) for m, ps in nm))
           + "]\n\n")
+    log = log or {"cap": 0, "init": 0}
+    s += ("/-- the event log measured on the real `_log_event` (probe): capacity (0 = not recognised) and the number of entries\n"
+          "    a freshly constructed lifecycle has -/\n"
+          f"def logCap : Nat := {log['cap']}\ndef logInit : Nat := {log['init']}\n\n")
     return s + "end Operon.Gen.TelomereConsts\n"
 
 
@@ -422,13 +466,15 @@ def run(repo: Path, lean_dir: Path, write_if_changed) -> list[dict]:
     except Exception:   # noqa
         ok, vals = False, {}
     sig = signatures(src)
+    log = probe_log(p) if src else {"cap": 0, "init": 0}
     c1 = write_if_changed(Path(lean_dir) / "Operon/Gen/TelomereLocks.lean", locks)
-    c2 = write_if_changed(Path(lean_dir) / "Operon/Gen/TelomereConsts.lean", render_consts(ok, vals, sig))
+    c2 = write_if_changed(Path(lean_dir) / "Operon/Gen/TelomereConsts.lean", render_consts(ok, vals, sig, log))
     return [{"id": "E3-telomere", "facts_changed": bool(c1), "recognised": sh.ok, "lock_kind": sh.lock_kind,
              "why": sh.why[:5]},
             {"id": "E5-telomere", "facts_changed": bool(c2), "known": ok,
              "values": {k: (str(v) if v is not None else None) for k, v in vals.items()},
-             "call_defaults": {k: (v if k != "names" else [list(x) for x in (v or [])]) for k, v in sig.items()}}]
+             "call_defaults": {k: (v if k != "names" else [list(x) for x in (v or [])]) for k, v in sig.items()},
+             "event_log": log}]
 
 
 if __name__ == "__main__":
@@ -437,4 +483,4 @@ if __name__ == "__main__":
     src = (root / REL).read_text()
     sh = Shape(src)
     print(render_locks(sh))
-    print(render_consts(*consts(src), signatures(src)))
+    print(render_consts(*consts(src), signatures(src), probe_log(root / REL)))
